@@ -100,7 +100,7 @@ return self.theDraws
     leaf_tables(sub)
     for o in sub.obligations:
         if o.construct in ('bioDraws.set_id_manager', 'bioDraws.dict_of_elementary_expression', 'RandomVariable.set_id_manager', 'IdManager.prepare:tables', 'expressions_names_indices'):
-            ctx.add('C10.R1', o.construct, o.ok, (o.file, o.line), o.message, o.detail)
+            ctx.adopt('C10.R1', o)
     ctx.floor('C10.R1', 9)
 
     B = prog.cls('biogeme', 'BIOGEME')
@@ -111,6 +111,28 @@ return self.theDraws
     users = [x for x in walk_no_nested(init.node) if isinstance(x, ast.Expr) and unparse(x.value) in ('self.reset_id_manager()', 'self._generate_draws(self.number_of_draws)', 'self._audit()')]
     ok = len(seedif) == 1 and len(sd) == 1 and unparse(sd[0].value) == "self.biogeme_parameters.get_value(name='seed')" and len(users) >= 3 and all(cfg.dominates(cfg.node_of(seedif[0]), cfg.node_of(u)) for u in users)
     ctx.add('C10.R2', 'BIOGEME.__init__:seed', ok, init, 'the generator is seeded (when seed != 0) before any draw is generated' if ok else 'np.random.seed no longer precedes the generation of draws', 'seed')
+    # every source of randomness of the draw generators is the global numpy stream that np.random.seed controls
+    LEGACY = {'uniform', 'random', 'random_sample', 'rand', 'randn', 'randint', 'normal', 'standard_normal', 'shuffle', 'permutation', 'choice', 'seed', 'exponential', 'lognormal', 'gumbel', 'logistic', 'beta', 'gamma', 'triangular'}
+    OTHER = {'default_rng', 'RandomState', 'Generator', 'SeedSequence', 'PCG64', 'MT19937', 'Philox', 'SFC64', 'urandom', 'SystemRandom', 'token_bytes', 'randbits', 'getrandbits'}
+    n_sources = 0
+    for modname in ('draws', 'native_draws', 'database'):
+        m = prog.module(modname)
+        std_random = any(isinstance(n, ast.Import) and any(a.name == 'random' for a in n.names) for n in ast.walk(m.tree))
+        for fn in m.all_functions:
+            for c in walk_no_nested(fn.node):
+                if not isinstance(c, ast.Call):
+                    continue
+                d = unparse(c.func)
+                last = d.rsplit('.', 1)[-1]
+                if d.startswith(('np.random.', 'numpy.random.')) and last in LEGACY:
+                    n_sources += 1
+                    continue
+                fresh = last in OTHER or (d.startswith(('np.random.', 'numpy.random.')) and last not in LEGACY) or (std_random and d.startswith('random.')) or d.startswith('secrets.')
+                if fresh:
+                    ctx.add('C10.R2', f'{modname}.{fn.qualname}:{d}', False, (fn.file, c.lineno),
+                            f'{d}(...) draws from a generator that np.random.seed does not control: with a non-zero seed the draws of {fn.qualname} differ from one run to the next', d, positive=True)
+    ctx.add('C10.R2', 'draw generators:sources', n_sources >= 5, D, f'{n_sources} calls on the global numpy stream (the one BIOGEME seeds) and no other source of randomness in draws / native_draws / database'
+            if n_sources >= 5 else f'only {n_sources} calls on the global numpy stream found in draws / native_draws / database: sources of randomness not recognised', 'sources')
     srg = D.methods['set_random_number_generators']
     c2 = cfg_of(srg.node)
     p = srg.positional_params()[1]
@@ -143,7 +165,7 @@ return self.theDraws
                            'bioDraws.get_signature', 'RandomVariable.get_signature', 'bioDraws.set_id_manager', 'RandomVariable.set_id_manager',
                            'bioDraws.dict_of_elementary_expression', 'RandomVariable.dict_of_elementary_expression',
                            'MonteCarlo.__init__(child)', 'Integrate.__init__(child)', 'Derive.__init__(child)'):
-            ctx.add('C10.R4', o.construct, o.ok, (o.file, o.line), o.message, o.detail)
+            ctx.adopt('C10.R4', o)
     ecc(ctx, 'C10.R4', methods={'setDraws'})
     calc = prog.func('expressions.calculator', 'calculate_function_and_derivatives')
     ok = has(calc.node, 'if the_expression.requires_draws():\n    ___\n    _C.setDraws(database.theDraws)')
